@@ -29,6 +29,8 @@ def run(rep, prog, tier):
     rep.rule('C01.6', 'the hashed subpacket area that is hashed is the received one, also on copies (the C05 capture / replay / copy rules)', floor=30)
     rep.rule('C01.7', 'what verify hands to hashdata for a message is an injective function of the received octets (no lossy decode / encode / normalisation)', floor=12)
     rep.rule('C01.8', 'the user-attribute hashdata covers every received attribute subpacket: parse files each one, the serialiser emits each one', floor=4)
+    rep.rule('C01.10', 'PGPKey.sign: a subject that is present (not None) is signed with a document type; Timestamp only for None', floor=4)
+    rep.rule('C01.9', 'the signature / key integers handed to the verifier are a one-to-one image of the received MPI octets (the C09 MPI codec analysis)', floor=4)
     rep.assume('PGPKey.hashdata / PGPUID.hashdata are non-empty for a key / user id that exists (axiom len(...) > 0)')
     rep.assume('cryptography.*.verify raises InvalidSignature on a bad signature and returns None otherwise (trusted base)')
 
@@ -45,6 +47,13 @@ def run(rep, prog, tier):
     check_hashed_area(rep, prog)
     check_signed_data_path(rep, prog)
     check_user_attribute_path(rep, prog)
+    check_mpi_codec(rep, prog)
+    check_sign_type(rep, prog)
+    # a key that must not be relied upon: the record on that arm carries the issue set that disqualified it, never OK (the C17.4 /
+    # C17.5 analysis of PGPKey.verify under the truth-table rows, run here under a C01 id)
+    from rules.C17 import check_disqualified_arm
+    from rules.C08 import _Proxy
+    check_disqualified_arm(_Proxy(rep, 'C01.4'), prog)
 
 
 # ------------------------------------------------------------------------------------------------ C01.2
@@ -681,3 +690,50 @@ def check_user_attribute_path(rep, prog):
             rep.check(len(tgt) == 1 and tgt[0].startswith('%s.%s[' % (si.params[0], coll)), 'C01.8', 'SubPackets.__setitem__',
                       'attribute subpacket stored in %s' % tgt, 'the subpacket must be filed in the container the serialiser walks',
                       where=si.where, expected='%s.%s[...]' % (si.params[0], coll), found=tgt)
+
+
+# ------------------------------------------------------------------------------------------------ C01.9
+def check_mpi_codec(rep, prog):
+    """The integers of a signature (and of the key) reach the verifier through MPI.__new__: if the reader discards received bits
+    (masking to the declared bit count, truncating), two different packets verify alike.  C09's finite-point MPI analysis
+    (reader, writer, lengths, round trip, parsed-then-written) is run here under a C01 id - not a second implementation."""
+    from rules import C09
+    from rules.C08 import _Proxy
+    C09.mpi(_Proxy(rep, 'C01.9'), prog)
+
+
+# ------------------------------------------------------------------------------------------------ C01.10
+DOCUMENT_TYPES = ('SignatureType.BinaryDocument', 'SignatureType.CanonicalDocument')
+
+
+def check_sign_type(rep, prog):
+    """A Timestamp / Standalone signature covers no document, so it verifies with any.  PGPKey.sign may choose it only when there
+    is no subject (None); for every subject that is present - also an empty one - the type handed to PGPSignature.new is a
+    document type.  Decided on interpreter paths with the subject pinned: None / non-None text, octets, message."""
+    fi = prog.method('pgpy.pgp', 'PGPKey', 'sign')
+    rep.saw(fn=fi)
+    sp = fi.params[1]
+    scen = [('None', Const(None)), ('str (possibly empty)', Sym(sp, types={'str'}, nonnull=True)),
+            ('bytes (possibly empty)', Sym(sp, types={'bytes'}, nonnull=True)),
+            ('bytearray (possibly empty)', Sym(sp, types={'bytearray'}, nonnull=True)),
+            ('PGPMessage', Sym(sp, types={'PGPMessage'}, nonnull=True))]
+    for name, val in scen:
+        outs = [s for s in Interp(prog, Scenario(args={sp: val}, inline=lambda f: False)).run(fi) if s.raised is None]
+        rep.analysed['paths'] += len(outs)
+        if not outs:
+            raise AnalysisError('PGPKey.sign: no returning path for subject %s' % name)
+        for s in outs:
+            made = [c for c in s.calls if c[0] == 'PGPSignature.new']
+            if len(made) != 1 or not (made[0][1] or 'sigtype' in made[0][2]):
+                raise AnalysisError('PGPKey.sign: expected one PGPSignature.new(<type>, ...) per path, found %s' % [c[0] for c in made])
+            t = made[0][1][0] if made[0][1] else made[0][2]['sigtype']
+            if name == 'None':
+                ok = t in ('SignatureType.Timestamp', 'SignatureType.Standalone')
+                msg = 'signing nothing makes a timestamp / standalone signature'
+            else:
+                ok = t in DOCUMENT_TYPES
+                msg = ('a subject that is present must be signed with a document type: a %s signature covers no document and '
+                       'verifies with any (the test that selects it must be `subject is None`, not emptiness)' % t.split('.')[-1])
+            rep.check(ok, 'C01.10', 'PGPKey.sign', 'subject %s -> %s' % (name, t), msg, where=fi.where,
+                      expected='Timestamp' if name == 'None' else 'BinaryDocument / CanonicalDocument', found=t,
+                      scenario='subject %s; decisions %s' % (name, [x[0] for x in s.facts]))
